@@ -39,3 +39,7 @@ VARIANTS = [
 VARIANTS += [
     v("c05-p-half", A, "        if p:\n            if srange is None:\n                srange = np.arange(-1.8, 4.2, 0.2, dtype=np.float64)", "        if p and p != 0.5:\n            if srange is None:\n                srange = np.arange(-1.8, 4.2, 0.2, dtype=np.float64)", names="kernel selection"),
 ]
+
+VARIANTS += [
+    v("c05-early-break", W, "                if gcv[0] < gcv_temp[0]:\n                    gcv_temp = gcv\n                    y_temp = z\n", "                if gcv[0] < gcv_temp[0]:\n                    gcv_temp = gcv\n                    y_temp = z\n                elif it == 0 and gcv[0] > 1.5 * gcv_temp[0]:\n                    break\n", names="R-ARGMIN", note="seeded C05a"),
+]
